@@ -98,3 +98,45 @@ def mask_text(m):
     if isinstance(m[1], tuple) or m[1] is None and len(m) == 4 and isinstance(m[2], (tuple, type(None))) and m[0] in ('BitAnd', 'BitOr'):
         return '(%s %s %s)' % (mask_text(m[1]) if isinstance(m[1], tuple) else '?', m[0], mask_text(m[2]) if isinstance(m[2], tuple) else '?')
     return '%s %s %s' % (m[1], m[0], m[2])
+
+
+# ---------------------------------------------------------------------------------------------- signatures of repo callees
+def sig_index_of(S, e, a, kw, env):
+    """_index_of(arr: Ix(X), lookup: Arr(K, Ix(X))) -> Ix(K) on the axes of arr (positions in the lookup table)."""
+    if len(a) < 2:
+        return UNK
+    arr, lookup = a[0], a[1]
+    if isinstance(lookup, ListT) and isinstance(lookup.elem, Ix):
+        lookup = Arr((lookup.axis or Space('ListAx', lookup.vid),), lookup.elem)
+    ae = elem_of(arr)
+    if isinstance(lookup, Arr) and isinstance(ae, Ix) and isinstance(lookup.elem, Ix) and lookup.axes:
+        if ae.space is not lookup.elem.space and not is_unk(ae.space) and not is_unk(lookup.elem.space):
+            S.report('space', e, '_index_of: values of kind %s are looked up in a table of %s' % (ae, lookup.elem))
+        el = Ix(lookup.axes[0])
+        return Arr(arr.axes, el) if isinstance(arr, Arr) else el
+    return UNK
+
+
+def sig_from_sparse(S, e, a, kw, env):
+    """from_sparse(data: (R, L, ...), cols: (R, L) Ix(X), channel_ids: (C,) Ix(X)) -> (R, C, ...)"""
+    if len(a) < 3:
+        return UNK
+    data, cols, ch = a[0], a[1], a[2]
+    if isinstance(data, Arr) and isinstance(cols, Arr) and isinstance(ch, Arr) and len(data.axes) >= 2 and len(cols.axes) == 2:
+        for k in (0, 1):
+            if data.axes[k] is not cols.axes[k] and not is_unk(data.axes[k]) and not is_unk(cols.axes[k]):
+                S.report('space', e, 'from_sparse: axis %d of the data ranges over %s but the column table over %s' % (k, data.axes[k], cols.axes[k]))
+        if isinstance(cols.elem, Ix) and isinstance(ch.elem, Ix) and cols.elem.space is not ch.elem.space:
+            S.report('space', e, 'from_sparse: the column table holds %s but the requested columns are %s' % (cols.elem, ch.elem))
+        return Arr((data.axes[0], ch.axes[0]) + data.axes[2:], data.elem)
+    return UNK
+
+
+def sig_compute_pcs(S, e, a, kw, env):
+    x = a[0] if a else UNK
+    if isinstance(x, Arr) and len(x.axes) == 3:
+        return Arr((PC, x.axes[1], x.axes[2]), Q())
+    return UNK
+
+
+COMMON_SIGS = {'_index_of': sig_index_of, 'from_sparse': sig_from_sparse, '_compute_pcs': sig_compute_pcs}
